@@ -31,7 +31,7 @@ CHECKS = {
   note="the by-value conversions are the oracle by definition of the property; after a panicking conversion only ownership (no double drop, no use of dead values, caller-owned buffers still fully live) is checked because the documentation leaves the values unspecified; Miri is an additional memory-safety oracle when available; a simulator process killed by a signal is reported as a violation pinned on the crashing plan",
   tech="deterministic simulation with fault injection: seeded guard histories vs. by-value model, unwind/leak faults, exhaustive crash points in in-place maps, Miri as UB oracle"),
 "C18": dict(
-  text="seeded search over operation histories (<=50 ops, <=60 elements; a quarter of the thorough plans <=130 ops, <=250 elements) on every struct-of-arrays instantiation (26 color types x plain/alpha/alpha-of-another-element-type), refined step by step against a Vec model; iterators are driven through next/next_back/nth/nth_back/len/size_hint and ended by drop/exhaust/count/forget/last/fold/rfold/rev-skip-step_by; the Box/array/slice/mut-slice forms get up to three actions on one instance and are read back through themselves; iterator searching methods (find, rfind, position, rposition, any, all) and comparing consumers (eq, ne, also against an iterator with an inexact size hint); ranged get/get_mut also where alpha has another element type; extend/collect sources with exact, absent and loose size hints, also sources that are not fused (reference: Vec fed from an identical source, also for how much of the source is taken); cancel/leak/unwind/contract-panic faults placed inside live drains and iterators; a clean batch is evidence, not proof",
+  text="seeded search over operation histories (<=50 ops, <=60 elements; a quarter of the thorough plans <=130 ops, <=250 elements) on every struct-of-arrays instantiation (26 color types x plain/alpha/alpha-of-another-element-type), refined step by step against a Vec model; iterators are driven through next/next_back/nth/nth_back/len/size_hint and ended by drop/exhaust/count/forget/last/fold/rfold/rev-skip-step_by; the Box/array/slice/mut-slice forms get up to three actions on one instance and are read back through themselves; iterator searching methods (find, rfind, position, rposition, any, all) comparing consumers (eq, ne, also against an iterator with an inexact size hint) and selecting consumers (max_by, min_by, max_by_key, min_by_key over a rank with ties); ranged get/get_mut also where alpha has another element type; extend/collect sources with exact, absent and loose size hints, also sources that are not fused (reference: Vec fed from an identical source, also for how much of the source is taken); cancel/leak/unwind/contract-panic faults placed inside live drains and iterators; a clean batch is evidence, not proof",
   ref="DESIGN.md §4.2",
   note="trusts the Vec, slice and Drain of std as the reference; items are numbered so each component slot has its own value set; after a leaked drain only equal component lengths and an intact prefix are demanded (std leaves the amount lost unspecified)",
   tech="deterministic simulation with fault injection: seeded histories vs. Vec reference model, unwind/leak/cancel faults, minimised replayable plans"),
@@ -81,7 +81,7 @@ def main(claimed):
             "kind_free_text": "single-process deterministic simulator: one integer (VERIF_SEED) decides every plan; plans are generated as data, executed against the real palette code and a reference model/oracle with injected faults (unwind, leak, cancel, contract panic, degenerate entropy, peer errors, I/O faults); parallel batch runner whose outcome is independent of the worker count, determinism self-test, delta-debugging minimiser, replay files confirmed in a fresh process",
         }],
         "checks": checks,
-        "notes": "Deterministic simulation with fault injection. Four of the twenty properties have something other than the call's arguments deciding the outcome (operation histories with unwind/leak faults: C13, C18; the entropy seam: C19; the serde peer and its I/O: C20); the other sixteen are pure functions and are listed as not applicable, see DESIGN.md §1 and §5. One genuine defect (C19, uniform hue samplers) was found and repaired in /repo commit e200334; see known_findings.json. 80 independently written property-breaking changes, 23 own edits and 48+ property-preserving changes (all silent) are kept under seeded/, sensitivity/ and benign/ with the check that catches each (DESIGN.md §8.5).",
+        "notes": "Deterministic simulation with fault injection. Four of the twenty properties have something other than the call's arguments deciding the outcome (operation histories with unwind/leak faults: C13, C18; the entropy seam: C19; the serde peer and its I/O: C20); the other sixteen are pure functions and are listed as not applicable, see DESIGN.md §1 and §5. One genuine defect (C19, uniform hue samplers) was found and repaired in /repo commit e200334; see known_findings.json. 102 independently written property-breaking changes, 23 own edits and 62 property-preserving changes (all silent) are kept under seeded/, sensitivity/ and benign/ with the check that catches each (DESIGN.md §8.5).",
         "not_applicable": sorted(na, key=lambda e: e["property_id"]),
     }
     path = os.path.join(here, "MANIFEST.json")
